@@ -6,7 +6,7 @@ PID = "C01"
 
 
 def scenarios(rng, tier):
-    sc = T.fam_breach(rng) + T.fam_late(rng) + T.fam_resubmit(rng)
+    sc = T.fam_breach(rng) + T.fam_late(rng) + T.fam_resubmit(rng) + T.fam_oddnode(rng)[:2]
     sc += T.fam_overloaded(rng)[1:2] if tier == "quick" else T.fam_overloaded(rng)
     sc += T.fam_random(rng, 12 if tier == "quick" else 150)
     if tier == "thorough":
